@@ -114,8 +114,10 @@ fn check_build(k: u8) {
             Inner::Dead => assert!(false, "C17: new writer is dead"),
         }
     }
-    kani::cover!(expect_gzip && w.is_some(), "gzip writer");
-    kani::cover!(!expect_gzip && w.is_some(), "raw writer");
+    // vacuity witnesses that are satisfiable in every instance (which arm is used depends on the
+    // instance's Accept-Encoding text and is asserted above)
+    kani::cover!(w.is_some(), "a writer was returned");
+    kani::cover!(w.is_none(), "HEAD: no writer");
     std::mem::forget(w);
     std::mem::forget(resp);
 }
